@@ -11,6 +11,7 @@ import (
 	"bytes"
 	"database/sql"
 	"encoding/json"
+	"errors"
 	"fmt"
 	"io"
 	"log/slog"
@@ -870,18 +871,43 @@ func main() {
 	// (b) restore
 	rb := r.Fork()
 	par := runtime.NumCPU() * 2
+	histBuilt, histFailed := 0, 0
 	for hi, h := range histSpecs(rb, o.Tier) {
 		env, err := buildReplica(filepath.Join(scratch, fmt.Sprintf("h%d", hi)), h)
-		if err != nil {
-			hx.Fatal(fmt.Errorf("history %+v: %w", h, err))
+		if h.CorruptSrc && err != nil {
+			// the damaged page may be one SQLite/litestream must read to replicate at all: retry with other seeds
+			for try := 0; try < 4 && err != nil; try++ {
+				h.Seed = rb.Uint64()
+				env, err = buildReplica(filepath.Join(scratch, fmt.Sprintf("h%d-retry%d", hi, try)), h)
+			}
 		}
+		if err != nil {
+			var na *errNA
+			if errors.As(err, &na) {
+				res.Count("history/not-applicable(corrupted source unusable)")
+				res.Notes = append(res.Notes, fmt.Sprintf("history %+v not applicable: %v", h, err))
+				continue
+			}
+			// a history that cannot be built is a harness problem, not evidence about the property: it must
+			// not zero the run; it is recorded and the remaining histories still run
+			res.Count("history/build-failed")
+			res.Notes = append(res.Notes, fmt.Sprintf("HARNESS: history %+v could not be built: %v", h, err))
+			fmt.Fprintf(os.Stderr, "c10: history %+v could not be built: %v\n", h, err)
+			histFailed++
+			continue
+		}
+		histBuilt++
 		sample, nFault := 40, 6
 		if thorough {
 			nFault = 30
 		}
 		jobs, err := jobsFor(rb.Fork(), env, h, scratch, thorough, sample, nFault, res)
 		if err != nil {
-			hx.Fatal(fmt.Errorf("history %+v: %w", h, err))
+			res.Count("history/build-failed")
+			res.Notes = append(res.Notes, fmt.Sprintf("HARNESS: jobs for history %+v could not be prepared: %v", h, err))
+			fmt.Fprintf(os.Stderr, "c10: jobs for history %+v: %v\n", h, err)
+			histFailed++
+			continue
 		}
 		// fault-schedule jobs sleep in the reader's backoff: run them wide
 		var fast, slow []restoreJob
@@ -902,6 +928,9 @@ func main() {
 				res.Sample(map[string]any{"hist": h, "mut": ro.job.mut, "impl": ro.obs.canon(), "model": ro.model})
 			}
 		}
+	}
+	if histBuilt == 0 || histFailed > 1 {
+		hx.Fatal(fmt.Errorf("%d histories could not be built (%d built): see notes", histFailed, histBuilt))
 	}
 	res.Notes = append(res.Notes, fmt.Sprintf("driver answered %d lines", drv.N))
 	if err := res.Write(o.Out); err != nil {
